@@ -359,6 +359,10 @@ impl<'a, const N: usize> SessionCodec<'a, N> {
         self.cipher.encode(&self.context, &session, &address, content, dst)
     }
 
+    pub fn is_aead_2022(&self) -> bool {
+        self.cipher.kind.is_aead_2022()
+    }
+
     pub fn decode(&self, src: &mut BytesMut) -> anyhow::Result<Option<SessionPacket<N>>> {
         if src.is_empty() {
             Ok(None)
